@@ -37,6 +37,8 @@ def run(ctx):
     ctx.do(rule_granularity)
     ctx.do(rule_strict_compare)
     ctx.do(rule_clock)
+    from .hidden_state import rule_no_hidden_state
+    ctx.do(rule_no_hidden_state, "C05.history-independence")
 
 
 def rule_pipeline(ctx):
